@@ -692,9 +692,15 @@ class ParamAttrConstraint(
         constraint_context: ConstraintContext,
     ) -> None:
         if not isinstance(attr, self.base_attr):
-            raise VerifyException(
-                f"{attr} should be of base attribute {self.base_attr.name}"
-            )
+            if hasattr(self.base_attr, "name"):
+                raise VerifyException(
+                    f"{attr} should be of base attribute {self.base_attr.name}"
+                )
+            else:
+                raise VerifyException(
+                    f"{attr} should be of attribute subclassing "
+                    f"`{self.base_attr.__name__}`"
+                )
         parameters = attr.parameters
         if len(self.param_constrs) != len(parameters):
             raise VerifyException(
